@@ -2,17 +2,20 @@
    Model: coq/Model/Flux.v (fluxes_from_ujk, fluxes_to_labels of flux_finder.py) over the
    plaquettes of coq/Model/Lattice.v.  Only the property theorems; proofs in Proofs/FluxFacts.v.
 
+   Theorems named *_model are about the plaquettes computed by the C01 model (find_all_plaquettes)
+   and use C01's lemmas (Proofs/LatticeFacts.v, via Proofs/FluxLattice.v); the others hold for any
+   plaquette record / closed walk satisfying the stated boolean side condition, which the harness
+   evaluates (extracted) on every plaquette the implementation returns.
+
    NOT covered here (see harness/c05.py, checked on the implementation by S/K):
-   * "taken anticlockwise": orientation of the face walk is C01's clause;
-   * that every plaquette traced by the C01 model is a consistent closed walk is C01's
-     lemma; C05_gauge_invariant takes [walk_consistent L w = true] / [plaq_consistent L p = true]
-     as a boolean hypothesis, which the harness evaluates (extracted) on every plaquette the
-     implementation returns;
+   * "taken anticlockwise": orientation of the face walk is C01's clause (winding filter, G1);
    * "the plaquettes adjacent to that edge" = the non-INVALID entries of
      edges.adjacent_plaquettes[e] is C02's edge_sides clause; here adjacency is
-     "e occurs in p.edges". *)
+     "e occurs in p.edges";
+   * that a periodic lattice is closed (every directed edge in a plaquette) is a hypothesis of
+     the parity theorems (it fails e.g. when a face winds around the torus and is filtered). *)
 From Coq Require Import List ZArith Bool Arith Permutation.
-From Koala Require Import Model.Lattice Model.Flux Proofs.FluxFacts.
+From Koala Require Import Model.Lattice Model.Flux Proofs.FluxFacts Proofs.FluxLattice.
 Import ListNotations.
 Open Scope Z_scope.
 
@@ -140,6 +143,34 @@ Theorem C05_global_parity_checked : forall (L : lattice) (u : list Z) (ps : list
 Proof. exact global_parity_cover. Qed.
 Print Assumptions C05_global_parity_checked.
 
+(* clause 4 for the model end to end: on every well-formed lattice without self-loops, every vertex,
+   every bond array, the whole flux vector (real and complex) is gauge invariant — the closed-walk
+   side condition is discharged by C01's walk lemmas *)
+Theorem C05_gauge_invariant_model : forall (L : lattice) (v : nat) (u : list Z),
+  wf_lattice L = true -> no_self_loops L = true ->
+  fluxes_from_ujk L (gauge L v u) = fluxes_from_ujk L u
+  /\ fluxes_from_ujk_cplx L (gauge L v u) = fluxes_from_ujk_cplx L u.
+Proof. exact model_fluxes_gauge_invariant. Qed.
+Print Assumptions C05_gauge_invariant_model.
+
+(* every plaquette of the model satisfies the boolean side condition of C05_gauge_invariant_plaquette *)
+Theorem C05_model_plaquette_consistent : forall (L : lattice) (ps : list plaquette) (p : plaquette),
+  wf_lattice L = true /\ no_self_loops L = true ->
+  find_all_plaquettes L = Some ps -> In p ps -> plaq_consistent L p = true.
+Proof. exact model_plaquette_consistent. Qed.
+Print Assumptions C05_model_plaquette_consistent.
+
+(* clause 6 for the model: C01 gives "no directed edge in two plaquettes", so closedness is just
+   "every directed edge lies in some plaquette" *)
+Theorem C05_global_parity_model : forall (L : lattice) (ps : list plaquette) (u : list Z),
+  wf_lattice L = true -> no_self_loops L = true ->
+  find_all_plaquettes L = Some ps ->
+  (forall d, In d (all_darts L) -> In d (flat_map plaq_darts ps)) ->
+  (forall e, (e < nE L)%nat -> bond u e = 1 \/ bond u e = -1) ->
+  zprod (fluxes_real u ps) = (-1) ^ Z.of_nat (nE L).
+Proof. exact model_global_parity. Qed.
+Print Assumptions C05_global_parity_model.
+
 (* non-vacuity: on the 2x2 torus grid (4 plaquettes, 8 edges, parallel and boundary-crossing
    edges) the plaquette finder succeeds, every plaquette is a consistent closed walk, the lattice
    is closed, and the bond configuration has fluxes of both signs *)
@@ -148,6 +179,7 @@ Example C05_hypotheses_nonvacuous :
     /\ length ps = 4%nat
     /\ forallb (plaq_consistent torus22) ps = true
     /\ darts_cover torus22 ps = true
+    /\ wf_lattice torus22 = true /\ no_self_loops torus22 = true
     /\ all_pm1 torus22_u = true /\ length torus22_u = nE torus22
     /\ fluxes_real torus22_u ps = [-1; 1; 1; -1]
     /\ fluxes_real (gauge torus22 2 torus22_u) ps = [-1; 1; 1; -1]
